@@ -101,6 +101,25 @@ Proof.
     unfold out_bytes. now rewrite map_map.
 Qed.
 
+(* a hyper-like consumer (asks is_end_stream before the first poll and after every data frame,
+   stops when it is true) over an inner body that honours the http_body contract (true only
+   once its trailers have been yielded - tonic's EncodeBody): every data item AND the trailers
+   frame are taken, then is_end_stream stops the consumer *)
+Theorem resp_hyper e evs t :
+  only_data_or_pending evs = true -> nlen (encode_trailers t) <= U32_MAX ->
+  hyper_encode 1 e (evs ++ [EvTrailers t]) =
+  (map (fun d => SData (encode_bytes e d)) (datas evs) ++ [SData (encode_bytes e (trailers_frame t))], true).
+Proof.
+  intros H L. induction evs as [|x r IH].
+  - cbn [app hyper_encode inner_eos answer_of poll_encode datas map]. unfold make_trailers_frame.
+    replace (U32_MAX <? nlen (encode_trailers t)) with false by lia. reflexivity.
+  - cbn [only_data_or_pending forallb] in H. apply andb_true_iff in H as [Hx Hr].
+    specialize (IH Hr).
+    destruct x as [|d|t'|]; try discriminate;
+      cbn [app hyper_encode answer_of poll_encode datas map]; unfold inner_eos at 1;
+      change (1 =? 1) with true; cbv iota; rewrite IH; reflexivity.
+Qed.
+
 (* ================= request direction ================= *)
 Lemma drain_none_data n : forall evs, (length evs < n)%nat -> only_data_or_pending evs = true ->
   drain_none_n n evs = map SData (datas evs) ++ [SNone].
